@@ -191,7 +191,7 @@ theorem bal_credit (b : List (Acct × Int)) (a : Acct) (x : Int) (y : Acct) :
 theorem runCreate_ok {env : Env} {s s' : St} {o b : Addr} {n : Name} {u : String} {uo : Bool} {p : Int} {c : Cur}
     (h : runCreate env s o b n u uo p c = .ok s') :
     env.opts.base < p ∧ alookup n s.recs = none ∧ validName n = true ∧ nameAllowed env.opts n = true ∧
-    debit s.bals (o, c) p = some s'.bals ∧ s'.pool = s.pool + p ∧ s'.tree = s.tree ∧
+    debit s.bals (o, c) p = some s'.bals ∧ s'.pool = s.pool + p ∧
     ∃ d, s'.recs = upsert s.recs n d ∧ d.owner = o ∧ d.onSale = false ∧ d.creation = env.height ∧
       (if isSub n = true then ∃ par, alookup (parentOf n) s.recs = some par ∧ par.owner = o ∧ d.expire = par.expire
        else env.opts.perBlock ≠ 0 ∧ ∃ q, blocksFor (p - env.opts.base) env.opts.perBlock env.version = some q ∧
@@ -230,7 +230,7 @@ theorem runCreate_ok {env : Env} {s s' : St} {o b : Addr} {n : Name} {u : String
     split at h
     · cases h
     cases h
-    refine ⟨by omega, hex', hname'.2, hname'.1, hb, rfl, rfl, _, rfl, rfl, rfl, rfl, ?_⟩
+    refine ⟨by omega, hex', hname'.2, hname'.1, hb, rfl, _, rfl, rfl, rfl, rfl, ?_⟩
     simp only [hsub, if_true]
     exact ⟨par, hpar, by simpa using hown, rfl⟩
   · rename_i hsub
@@ -243,7 +243,7 @@ theorem runCreate_ok {env : Env} {s s' : St} {o b : Addr} {n : Name} {u : String
     · cases h
     rename_i q hq
     cases h
-    refine ⟨by omega, hex', hname'.2, hname'.1, hb, rfl, rfl, _, rfl, rfl, rfl, rfl, ?_⟩
+    refine ⟨by omega, hex', hname'.2, hname'.1, hb, rfl, _, rfl, rfl, rfl, rfl, ?_⟩
     simp only [hsub, Bool.false_eq_true, if_false]
     exact ⟨hpb, q, hq, rfl⟩
 
@@ -299,9 +299,9 @@ theorem runCreate_offSale {env : Env} {s s' : St} {o b : Addr} {n : Name} {u : S
 theorem runUpdate_ok {env : Env} {s s' : St} {o b : Addr} {n : Name} {a : Bool} {u : String} {uo : Bool}
     (h : runUpdate env s o b n a u uo = .ok s') :
     ∃ d, alookup n s.recs = some d ∧ d.owner = o ∧ changeable d env.height = true ∧
-      s'.tree = s.tree ∧ s'.bals = s.bals ∧ s'.pool = s.pool ∧
+      s'.bals = s.bals ∧ s'.pool = s.pool ∧
       s'.recs = upsert (if (!a && !isSub n) = true then
-          mapSel (visSub s.tree n) (fun x => { x with active := false }) s.recs else s.recs) n
+          mapSel (visSub n) (fun x => { x with active := false }) s.recs else s.recs) n
         { d with benef := b, active := a, lastUpdate := env.height, uri := u } := by
   unfold runUpdate at h
   split at h
@@ -316,12 +316,12 @@ theorem runUpdate_ok {env : Env} {s s' : St} {o b : Addr} {n : Name} {a : Bool} 
   split at h
   · cases h
   cases h
-  exact ⟨d, hd, by simpa using hown, by simpa using hch, rfl, rfl, rfl, rfl⟩
+  exact ⟨d, hd, by simpa using hown, by simpa using hch, rfl, rfl, rfl⟩
 
 theorem runSale_ok {env : Env} {s s' : St} {o : Addr} {n : Name} {p : Int} {cu : Cur} {c : Bool}
     (h : runSale env s o n p cu c = .ok s') :
     ∃ d, alookup n s.recs = some d ∧ d.owner = o ∧ isSub n = false ∧ env.opts.perBlock < p ∧
-      expiredAt d env.height = false ∧ s'.tree = s.tree ∧ s'.bals = s.bals ∧ s'.pool = s.pool ∧
+      expiredAt d env.height = false ∧ s'.bals = s.bals ∧ s'.pool = s.pool ∧
       ∃ d', s'.recs = upsert s.recs n d' ∧ d'.owner = d.owner ∧ d'.expire = d.expire ∧ d'.benef = d.benef ∧
         d'.creation = d.creation ∧
         (c = false → d'.onSale = true ∧ d'.salePrice = some p ∧ d'.active = false) ∧
@@ -347,22 +347,22 @@ theorem runSale_ok {env : Env} {s s' : St} {o : Addr} {n : Name} {p : Int} {cu :
   · cases h
   rename_i hexp
   cases h
-  refine ⟨d, hd, by simpa using hown, by simpa using hsub, by omega, by simpa using hexp, rfl, rfl, rfl, _, rfl, ?_⟩
+  refine ⟨d, hd, by simpa using hown, by simpa using hsub, by omega, by simpa using hexp, rfl, rfl, _, rfl, ?_⟩
   cases c <;> simp
 
 theorem runPurchase_ok {env : Env} {s s' : St} {buyer acct : Addr} {n : Name} {off : Int} {c : Cur}
     (h : runPurchase env s buyer acct n off c = .ok s') :
     ∃ d, alookup n s.recs = some d ∧ isSub n = false ∧ (d.onSale = true ∨ d.expire < env.version) ∧
-      env.opts.perBlock ≠ 0 ∧ s'.tree = s.tree ∧
+      env.opts.perBlock ≠ 0 ∧
       ((env.version ≤ d.expire ∧ d.onSale = true ∧ ∃ sale b0 q, d.salePrice = some sale ∧ sale ≤ off ∧
           debit s.bals (buyer, c) sale = some b0 ∧
           debit (credit b0 (d.owner, c) sale) (buyer, c) (off - sale) = some s'.bals ∧ s'.pool = s.pool + (off - sale) ∧
           blocksFor (off - sale) env.opts.perBlock d.expire = some q ∧
-          s'.recs = upsert (eraseSel (visSub s.tree n) s.recs) n (resetAfterSale d buyer acct q env.version))
+          s'.recs = upsert (eraseSel (visSub n) s.recs) n (resetAfterSale d buyer acct q env.version))
        ∨ (¬(env.version ≤ d.expire ∧ d.onSale = true) ∧ env.opts.base ≤ off ∧ ∃ q,
           debit s.bals (buyer, c) off = some s'.bals ∧ s'.pool = s.pool + off ∧
           blocksFor (off - env.opts.base) env.opts.perBlock env.version = some q ∧
-          s'.recs = upsert (eraseSel (visSub s.tree n) s.recs) n (resetAfterSale d buyer acct q env.version))) := by
+          s'.recs = upsert (eraseSel (visSub n) s.recs) n (resetAfterSale d buyer acct q env.version))) := by
   unfold runPurchase at h
   split at h
   · cases h
@@ -403,7 +403,7 @@ theorem runPurchase_ok {env : Env} {s s' : St} {buyer acct : Addr} {n : Name} {o
     · cases h
     rename_i b2 hb2
     cases h
-    refine ⟨d, hd, by simpa using hsub, hfs', hpb, rfl, Or.inl ⟨hbr.1, hbr.2, sale, b0, q, hsale, by simpa using hoff, hb0, hb2, rfl, hq, rfl⟩⟩
+    refine ⟨d, hd, by simpa using hsub, hfs', hpb, Or.inl ⟨hbr.1, hbr.2, sale, b0, q, hsale, by simpa using hoff, hb0, hb2, rfl, hq, rfl⟩⟩
   · rename_i hbr
     simp at hbr
     split at h
@@ -419,7 +419,7 @@ theorem runPurchase_ok {env : Env} {s s' : St} {buyer acct : Addr} {n : Name} {o
     · cases h
     rename_i b2 hb2
     cases h
-    refine ⟨d, hd, by simpa using hsub, hfs', hpb, rfl, Or.inr ⟨?_, by omega, q, hb2, rfl, hq, rfl⟩⟩
+    refine ⟨d, hd, by simpa using hsub, hfs', hpb, Or.inr ⟨?_, by omega, q, hb2, rfl, hq, rfl⟩⟩
     intro ⟨h1, h2⟩
     have := hbr h1
     simp [h2] at this
@@ -428,7 +428,7 @@ theorem runSend_ok {env : Env} {s s' : St} {f : Addr} {n : Name} {amt : Int} {c 
     (h : runSend env s f n amt c = .ok s') :
     ∃ d b1, alookup n s.recs = some d ∧ 0 ≤ amt ∧ d.benef.isEmpty = false ∧ activeAt d env.version = true ∧
       expiredAt d env.version = false ∧ debit s.bals (f, c) amt = some b1 ∧ s'.bals = credit b1 (d.benef, c) amt ∧
-      s'.recs = s.recs ∧ s'.tree = s.tree ∧ s'.pool = s.pool := by
+      s'.recs = s.recs ∧ s'.pool = s.pool := by
   unfold runSend at h
   split at h
   · cases h
@@ -454,15 +454,15 @@ theorem runSend_ok {env : Env} {s s' : St} {f : Addr} {n : Name} {amt : Int} {c 
   have hamt' : 0 ≤ amt := by
     simp only [Bool.or_eq_true, decide_eq_true_eq, not_or] at hamt
     omega
-  exact ⟨d, b1, hd, hamt', by simpa using hben, by simpa using hact, by simpa using hexp, hb1, rfl, rfl, rfl, rfl⟩
+  exact ⟨d, b1, hd, hamt', by simpa using hben, by simpa using hact, by simpa using hexp, hb1, rfl, rfl, rfl⟩
 
 theorem runRenew_ok {env : Env} {s s' : St} {o : Addr} {n : Name} {p : Int} {c : Cur}
     (h : runRenew env s o n p c = .ok s') :
     ∃ d, alookup n s.recs = some d ∧ d.owner = o ∧ isSub n = false ∧ env.opts.perBlock < p ∧
       env.opts.perBlock ≠ 0 ∧ expiredAt d env.version = false ∧
-      debit s.bals (o, c) p = some s'.bals ∧ s'.pool = s.pool + p ∧ s'.tree = s.tree ∧
+      debit s.bals (o, c) p = some s'.bals ∧ s'.pool = s.pool + p ∧
       ∃ q, blocksFor p env.opts.perBlock d.expire = some q ∧
-      s'.recs = mapSel (visSub s.tree n) (fun x => { x with expire := d.expire + q })
+      s'.recs = mapSel (visSub n) (fun x => { x with expire := d.expire + q })
           (upsert s.recs n { d with expire := d.expire + q, lastUpdate := env.height }) := by
   unfold runRenew at h
   split at h
@@ -494,14 +494,14 @@ theorem runRenew_ok {env : Env} {s s' : St} {o : Addr} {n : Name} {p : Int} {c :
   · cases h
   rename_i q hq
   cases h
-  exact ⟨d, hd, by simpa using hown, by simpa using hsub, by omega, hpb, by simpa using hexp, hb1, rfl, rfl, q, hq, rfl⟩
+  exact ⟨d, hd, by simpa using hown, by simpa using hsub, by omega, hpb, by simpa using hexp, hb1, rfl, q, hq, rfl⟩
 
 theorem runDeleteSub_ok {env : Env} {s s' : St} {o : Addr} {n : Name}
     (h : runDeleteSub env s o n = .ok s') :
     ∃ par, alookup (if isSub n = true then parentOf n else n) s.recs = some par ∧ par.owner = o ∧
-      s'.tree = s.tree ∧ s'.bals = s.bals ∧ s'.pool = s.pool ∧
+      s'.bals = s.bals ∧ s'.pool = s.pool ∧
       (if isSub n = true then (alookup n s.recs).isSome = true ∧ s'.recs = aerase s.recs n
-       else s'.recs = eraseSel (visSub s.tree n) s.recs) := by
+       else s'.recs = eraseSel (visSub n) s.recs) := by
   unfold runDeleteSub at h
   simp only [] at h
   split at h
@@ -518,16 +518,16 @@ theorem runDeleteSub_ok {env : Env} {s s' : St} {o : Addr} {n : Name}
     · cases h
     rename_i x hx
     cases h
-    refine ⟨par, hpar, by simpa using hown, rfl, rfl, rfl, ?_⟩
+    refine ⟨par, hpar, by simpa using hown, rfl, rfl, ?_⟩
     simp [hsub, hx]
   · rename_i hsub
     cases h
-    refine ⟨par, hpar, by simpa using hown, rfl, rfl, rfl, ?_⟩
+    refine ⟨par, hpar, by simpa using hown, rfl, rfl, ?_⟩
     simp [hsub]
 
 theorem feeStep_ok {env : Env} {s s' : St} (h : feeStep env s = .ok s') :
     ∃ g, env.fee = .used g ∧ debit s.bals (env.payer, env.olt) (env.feePrice * g) = some s'.bals ∧
-      s'.pool = s.pool + env.feePrice * g ∧ s'.recs = s.recs ∧ s'.tree = s.tree := by
+      s'.pool = s.pool + env.feePrice * g ∧ s'.recs = s.recs := by
   unfold feeStep at h
   split at h
   · cases h
@@ -537,7 +537,7 @@ theorem feeStep_ok {env : Env} {s s' : St} (h : feeStep env s = .ok s') :
   · cases h
   rename_i b1 hb1
   cases h
-  exact ⟨g, hg, hb1, rfl, rfl, rfl⟩
+  exact ⟨g, hg, hb1, rfl, rfl⟩
 
 theorem validate_ok {env : Env} {tx : Tx} (h : validate env tx = .ok ()) :
     env.payer = tx.signer ∧ env.sigValid = true ∧ env.minFee ≤ env.feePrice ∧ validateKind env tx = .ok () := by
@@ -715,20 +715,11 @@ theorem inv_of_erase {s s' : St} (q : Name → Bool) (hq : ∀ k, q k = true →
     omega
   simp [this, hpl]
 
-theorem vis_of_committed {s : St} {r k : Name} {d : Domain} (hc : subsCommitted s r = true)
-    (hk : alookup k s.recs = some d) (hs : isSubOf k r = true) : visSub s.tree r k = true := by
-  have hm := alookup_some_mem s.recs k d hk
-  have := (List.all_eq_true.mp hc) (k, d) hm
-  simp [hs] at this
-  simp [visSub, hs, this]
-
-theorem visSub_isSubOf {t : List Name} {r k : Name} (h : visSub t r k = true) : isSubOf k r = true := by
-  simp [visSub] at h
-  exact h.1
+theorem visSub_isSubOf {r k : Name} (h : visSub r k = true) : isSubOf k r = true := h
 
 theorem inv_create {env : Env} {s s' : St} {o b : Addr} {n : Name} {u : String} {uo : Bool} {p : Int} {c : Cur}
     (h : runCreate env s o b n u uo p c = .ok s') (hi : RegInv s) : RegInv s' := by
-  obtain ⟨_, habs, hval, _, _, _, _, d, hrecs, hown, _, _, hexp⟩ := runCreate_ok h
+  obtain ⟨_, habs, hval, _, _, _, d, hrecs, hown, _, _, hexp⟩ := runCreate_ok h
   intro k dk hk
   rw [hrecs, alookup_upsert] at hk
   split at hk
@@ -754,8 +745,8 @@ theorem inv_create {env : Env} {s s' : St} {o b : Addr} {n : Name} {u : String} 
       cases hq
 
 theorem inv_renew {env : Env} {s s' : St} {o : Addr} {n : Name} {p : Int} {c : Cur}
-    (h : runRenew env s o n p c = .ok s') (hi : RegInv s) (hc : subsCommitted s n = true) : RegInv s' := by
-  obtain ⟨d, hd, _, hsub, _, _, _, _, _, _, q, _, hrecs⟩ := runRenew_ok h
+    (h : runRenew env s o n p c = .ok s') (hi : RegInv s) : RegInv s' := by
+  obtain ⟨d, hd, _, hsub, _, _, _, _, _, q, _, hrecs⟩ := runRenew_ok h
   have hvn := (hi n d hd).1
   have hn2 : n.length = 2 := length_two_of_valid_not_sub hvn hsub
   intro k dk hk
@@ -775,7 +766,7 @@ theorem inv_renew {env : Env} {s s' : St} {o : Addr} {n : Name} {p : Int} {c : C
       by_cases hpar : parentOf k = n
       · -- k is a sub-name of the renewed name: the iteration reached it
         have hsk : isSubOf k n = true := hpar ▸ isSubOf_parent h3
-        have hvis := vis_of_committed hc hk0 hsk
+        have hvis : visSub n k = true := hsk
         rw [hpar, hd] at hq
         cases hq
         refine ⟨{ d with expire := d.expire + q, lastUpdate := env.height }, ?_, ?_, ?_⟩
@@ -783,12 +774,12 @@ theorem inv_renew {env : Env} {s s' : St} {o : Addr} {n : Name} {p : Int} {c : C
           simp [visSub, isSubOf_irrefl]
         · rw [← hk]; simp [hvis]; exact hqo
         · rw [← hk]; simp [hvis]
-      · have hnv : visSub s.tree n k = false := by
-          cases hv' : visSub s.tree n k with
+      · have hnv : visSub n k = false := by
+          cases hv' : visSub n k with
           | false => rfl
           | true => exact absurd (parentOf_eq_of_isSubOf (visSub_isSubOf hv') hn2) hpar
-        have hnvp : visSub s.tree n (parentOf k) = false := by
-          cases hv' : visSub s.tree n (parentOf k) with
+        have hnvp : visSub n (parentOf k) = false := by
+          cases hv' : visSub n (parentOf k) with
           | false => rfl
           | true =>
             have := isSubOf_length (visSub_isSubOf hv')
@@ -801,11 +792,11 @@ theorem inv_renew {env : Env} {s s' : St} {o : Addr} {n : Name} {p : Int} {c : C
         · rw [← hk]; simp [hnv]; exact hqe
 
 theorem inv_purchase {env : Env} {s s' : St} {buyer acct : Addr} {n : Name} {off : Int} {c : Cur}
-    (h : runPurchase env s buyer acct n off c = .ok s') (hi : RegInv s) (hc : subsCommitted s n = true) : RegInv s' := by
-  obtain ⟨d, hd, hsub, _, _, _, hbr⟩ := runPurchase_ok h
+    (h : runPurchase env s buyer acct n off c = .ok s') (hi : RegInv s) : RegInv s' := by
+  obtain ⟨d, hd, hsub, _, _, hbr⟩ := runPurchase_ok h
   have hvn := (hi n d hd).1
   have hn2 : n.length = 2 := length_two_of_valid_not_sub hvn hsub
-  have hrecs : ∃ d', s'.recs = upsert (eraseSel (visSub s.tree n) s.recs) n d' := by
+  have hrecs : ∃ d', s'.recs = upsert (eraseSel (visSub n) s.recs) n d' := by
     rcases hbr with ⟨_, _, _, _, _, _, _, _, _, _, _, hr⟩ | ⟨_, _, _, _, _, _, hr⟩
     · exact ⟨_, hr⟩
     · exact ⟨_, hr⟩
@@ -826,8 +817,8 @@ theorem inv_purchase {env : Env} {s s' : St} {buyer acct : Addr} {n : Name} {off
     have hpar : parentOf k ≠ n := by
       intro hpar
       have hsk : isSubOf k n = true := hpar ▸ isSubOf_parent h3
-      exact hnv (vis_of_committed hc hk hsk)
-    have hnvp : visSub s.tree n (parentOf k) ≠ true := by
+      exact hnv hsk
+    have hnvp : visSub n (parentOf k) ≠ true := by
       intro hv'
       have := isSubOf_length (visSub_isSubOf hv')
       rw [parentOf_length (validName_length hv)] at this
@@ -838,7 +829,7 @@ theorem inv_purchase {env : Env} {s s' : St} {buyer acct : Addr} {n : Name} {off
 
 theorem inv_update {env : Env} {s s' : St} {o b : Addr} {n : Name} {a : Bool} {u : String} {uo : Bool}
     (h : runUpdate env s o b n a u uo = .ok s') (hi : RegInv s) : RegInv s' := by
-  obtain ⟨d, hd, _, _, _, _, _, hrecs⟩ := runUpdate_ok h
+  obtain ⟨d, hd, _, _, _, _, hrecs⟩ := runUpdate_ok h
   refine inv_of_core (fun k => ?_) hi
   rw [hrecs, alookup_upsert]
   by_cases hk : k = n
@@ -848,12 +839,12 @@ theorem inv_update {env : Env} {s s' : St} {o b : Addr} {n : Name} {a : Bool} {u
     · rw [alookup_mapSel]
       cases alookup k s.recs with
       | none => rfl
-      | some x => by_cases hv : visSub s.tree n k = true <;> simp [hv]
+      | some x => by_cases hv : visSub n k = true <;> simp [hv]
     · rfl
 
 theorem inv_sale {env : Env} {s s' : St} {o : Addr} {n : Name} {p : Int} {cu : Cur} {c : Bool}
     (h : runSale env s o n p cu c = .ok s') (hi : RegInv s) : RegInv s' := by
-  obtain ⟨d, hd, _, _, _, _, _, _, _, d', hrecs, ho, he, _⟩ := runSale_ok h
+  obtain ⟨d, hd, _, _, _, _, _, _, d', hrecs, ho, he, _⟩ := runSale_ok h
   refine inv_of_core (fun k => ?_) hi
   rw [hrecs, alookup_upsert]
   by_cases hk : k = n
@@ -867,7 +858,7 @@ theorem inv_send {env : Env} {s s' : St} {f : Addr} {n : Name} {amt : Int} {c : 
 
 theorem inv_deleteSub {env : Env} {s s' : St} {o : Addr} {n : Name}
     (h : runDeleteSub env s o n = .ok s') (hi : RegInv s) : RegInv s' := by
-  obtain ⟨par, hpar, _, _, _, _, hrecs⟩ := runDeleteSub_ok h
+  obtain ⟨par, hpar, _, _, _, hrecs⟩ := runDeleteSub_ok h
   by_cases hsub : isSub n = true
   · simp only [hsub, if_true] at hrecs hpar
     refine inv_of_erase (fun k => decide (k = n)) (fun k hk => ?_) (fun k => ?_) hi
@@ -875,35 +866,24 @@ theorem inv_deleteSub {env : Env} {s s' : St} {o : Addr} {n : Name}
     · rw [hrecs.2, alookup_aerase]; simp
   · simp only [hsub] at hrecs hpar
     have hvn := (hi n par hpar).1
-    refine inv_of_erase (visSub s.tree n) (fun k hk => ?_) (fun k => ?_) hi
+    refine inv_of_erase (visSub n) (fun k hk => ?_) (fun k => ?_) hi
     · have := isSubOf_length (visSub_isSubOf hk)
       have := validName_length hvn
       omega
     · rw [hrecs, alookup_eraseSel]
 
 theorem inv_feeStep {env : Env} {s s' : St} (h : feeStep env s = .ok s') (hi : RegInv s) : RegInv s' := by
-  obtain ⟨_, _, _, _, hrecs, _⟩ := feeStep_ok h
+  obtain ⟨_, _, _, _, hrecs⟩ := feeStep_ok h
   exact inv_of_core (fun k => by rw [hrecs]) hi
 
-theorem handler_tree {env : Env} {s s' : St} {tx : Tx} (h : handler env s tx = .ok s') : s'.tree = s.tree := by
-  cases tx with
-  | create o b n u uo p c => exact (runCreate_ok h).2.2.2.2.2.2.1
-  | update o b n a u uo => obtain ⟨_, _, _, _, ht, _⟩ := runUpdate_ok h; exact ht
-  | sale o n p cu c => obtain ⟨_, _, _, _, _, _, ht, _⟩ := runSale_ok h; exact ht
-  | purchase b a n o c => obtain ⟨_, _, _, _, _, ht, _⟩ := runPurchase_ok h; exact ht
-  | send f n a c => obtain ⟨_, _, _, _, _, _, _, _, _, _, ht, _⟩ := runSend_ok h; exact ht
-  | renew o n p c => obtain ⟨_, _, _, _, _, _, _, _, _, ht, _⟩ := runRenew_ok h; exact ht
-  | deleteSub o n => obtain ⟨_, _, _, ht, _⟩ := runDeleteSub_ok h; exact ht
-
-theorem inv_handler {env : Env} {s s' : St} {tx : Tx} (h : handler env s tx = .ok s') (hi : RegInv s)
-    (hc : cascadeSees s tx = true) : RegInv s' := by
+theorem inv_handler {env : Env} {s s' : St} {tx : Tx} (h : handler env s tx = .ok s') (hi : RegInv s) : RegInv s' := by
   cases tx with
   | create o b n u uo p c => exact inv_create h hi
   | update o b n a u uo => exact inv_update h hi
   | sale o n p cu c => exact inv_sale h hi
-  | purchase b a n o c => exact inv_purchase h hi hc
+  | purchase b a n o c => exact inv_purchase h hi
   | send f n a c => exact inv_send h hi
-  | renew o n p c => exact inv_renew h hi hc
+  | renew o n p c => exact inv_renew h hi
   | deleteSub o n => exact inv_deleteSub h hi
 
 theorem step_cases (env : Env) (s : St) (tx : Tx) :
@@ -920,62 +900,20 @@ theorem step_cases (env : Env) (s : St) (tx : Tx) :
       | error e => exact Or.inl (by simp [h2])
       | ok s2 => exact Or.inr ⟨rfl, s1, rfl, by simp [h2]⟩
 
-theorem inv_step {env : Env} {s : St} {tx : Tx} (hi : RegInv s) (hc : cascadeSees s tx = true) :
-    RegInv (step env s tx).2 := by
+theorem inv_step {env : Env} {s : St} {tx : Tx} (hi : RegInv s) : RegInv (step env s tx).2 := by
   rcases step_cases env s tx with h | ⟨_, s1, h1, h2⟩
   · rw [h]; exact hi
-  · exact inv_feeStep h2 (inv_handler h1 hi hc)
+  · exact inv_feeStep h2 (inv_handler h1 hi)
 
 theorem inv_commit {s : St} (hi : RegInv s) : RegInv s.commit := hi
 
-theorem inv_run {s : St} (evs : List Ev) (hi : RegInv s) (hs : histSees s evs = true) : RegInv (run s evs) := by
+theorem inv_run {s : St} (evs : List Ev) (hi : RegInv s) : RegInv (run s evs) := by
   induction evs generalizing s with
   | nil => exact hi
   | cons ev evs ih =>
     cases ev with
-    | tx env t =>
-      simp only [histSees, Bool.and_eq_true] at hs
-      exact ih (inv_step hi hs.1) hs.2
-    | commit =>
-      simp only [histSees] at hs
-      exact ih (inv_commit hi) hs
-
-/-- the block overlay holds no ONS record that is not in the tree -/
-def Clean (s : St) : Prop := ∀ k, k ∈ akeys s.recs → k ∈ s.tree
-
-theorem clean_commit (s : St) : Clean s.commit := fun _ h => h
-
-theorem subsCommitted_of_clean {s : St} (hc : Clean s) (r : Name) : subsCommitted s r = true := by
-  unfold subsCommitted
-  rw [List.all_eq_true]
-  intro p hp
-  have : p.1 ∈ s.tree := hc p.1 (List.mem_map_of_mem (f := fun x => x.1) hp)
-  simp [this]
-
-theorem cascadeSees_of_clean {s : St} (hc : Clean s) (t : Tx) : cascadeSees s t = true := by
-  cases t <;> simp [cascadeSees, subsCommitted_of_clean hc]
-
-theorem histSees_of_oneTxPerBlock (evs : List Ev) : ∀ {s : St}, Clean s → oneTxPerBlock evs = true → histSees s evs = true := by
-  induction evs using oneTxPerBlock.induct with
-  | case1 => intro s _ _; rfl
-  | case2 evs ih =>
-    intro s _ h
-    simp only [oneTxPerBlock] at h
-    simp only [histSees]
-    exact ih (clean_commit s) h
-  | case3 env t evs ih =>
-    intro s hc h
-    simp only [oneTxPerBlock] at h
-    simp only [histSees, Bool.and_eq_true]
-    exact ⟨cascadeSees_of_clean hc t, ih (clean_commit _) h⟩
-  | case4 env t evs hne =>
-    intro s _ h
-    cases evs with
-    | nil => simp [oneTxPerBlock] at h
-    | cons e evs' =>
-      cases e with
-      | commit => exact absurd rfl (hne evs')
-      | tx _ _ => simp [oneTxPerBlock] at h
+    | tx env t => exact ih (inv_step hi)
+    | commit => exact ih (inv_commit hi)
 
 /-! ## who may change a record -/
 
@@ -983,11 +921,11 @@ theorem auth_of_change {env : Env} {s : St} {tx : Tx} {n : Name}
     (hch : alookup n (step env s tx).2.recs ≠ alookup n s.recs) : Auth env s tx n := by
   rcases step_cases env s tx with h | ⟨_, s1, h1, h2⟩
   · rw [h] at hch; exact absurd rfl hch
-  obtain ⟨_, _, _, _, hfr, _⟩ := feeStep_ok h2
+  obtain ⟨_, _, _, _, hfr⟩ := feeStep_ok h2
   rw [hfr] at hch
   cases tx with
   | create o b n' u uo p c =>
-    obtain ⟨_, habs, hval, _, _, _, _, d, hrecs, hown, _, _, hexp⟩ := runCreate_ok h1
+    obtain ⟨_, habs, hval, _, _, _, d, hrecs, hown, _, _, hexp⟩ := runCreate_ok h1
     rw [hrecs, alookup_upsert] at hch
     by_cases hk : n = n'
     · subst hk
@@ -998,26 +936,26 @@ theorem auth_of_change {env : Env} {s : St} {tx : Tx} {n : Name}
       · exact .registration b u uo p c habs (by simpa using hsub) rfl
     · simp [hk] at hch
   | update o b n' a u uo =>
-    obtain ⟨d, hd, hown, _, _, _, _, hrecs⟩ := runUpdate_ok h1
+    obtain ⟨d, hd, hown, _, _, _, hrecs⟩ := runUpdate_ok h1
     rw [hrecs, alookup_upsert] at hch
     by_cases hk : n = n'
     · subst hk; exact .ownRecord d hd hown
     · simp only [hk, if_false] at hch
       split at hch
       · rw [alookup_mapSel] at hch
-        by_cases hv : visSub s.tree n' n = true
+        by_cases hv : visSub n' n = true
         · exact .ownerAbove n' d (visSub_isSubOf hv) hd hown
         · cases hl : alookup n s.recs <;> simp [hl, hv] at hch
       · exact absurd rfl hch
   | sale o n' p cu c =>
-    obtain ⟨d, hd, hown, _, _, _, _, _, _, d', hrecs, _⟩ := runSale_ok h1
+    obtain ⟨d, hd, hown, _, _, _, _, _, d', hrecs, _⟩ := runSale_ok h1
     rw [hrecs, alookup_upsert] at hch
     by_cases hk : n = n'
     · subst hk; exact .ownRecord d hd hown
     · simp [hk] at hch
   | purchase b a n' o c =>
-    obtain ⟨d, hd, hsub, hfs, _, _, hbr⟩ := runPurchase_ok h1
-    have hrecs : ∃ d', s1.recs = upsert (eraseSel (visSub s.tree n') s.recs) n' d' := by
+    obtain ⟨d, hd, hsub, hfs, _, hbr⟩ := runPurchase_ok h1
+    have hrecs : ∃ d', s1.recs = upsert (eraseSel (visSub n') s.recs) n' d' := by
       rcases hbr with ⟨_, _, _, _, _, _, _, _, _, _, _, hr⟩ | ⟨_, _, _, _, _, _, hr⟩
       · exact ⟨_, hr⟩
       · exact ⟨_, hr⟩
@@ -1027,23 +965,23 @@ theorem auth_of_change {env : Env} {s : St} {tx : Tx} {n : Name}
     · subst hk; exact .purchase b a n o c d rfl (Or.inl rfl) hsub hd hfs
     · simp only [hk, if_false] at hch
       rw [alookup_eraseSel] at hch
-      by_cases hv : visSub s.tree n' n = true
+      by_cases hv : visSub n' n = true
       · exact .purchase b a n' o c d rfl (Or.inr (visSub_isSubOf hv)) hsub hd hfs
       · simp [hv] at hch
   | send f n' amt c =>
     obtain ⟨_, _, _, _, _, _, _, _, _, hrecs, _⟩ := runSend_ok h1
     rw [hrecs] at hch; exact absurd rfl hch
   | renew o n' p c =>
-    obtain ⟨d, hd, hown, _, _, _, _, _, _, _, q, _, hrecs⟩ := runRenew_ok h1
+    obtain ⟨d, hd, hown, _, _, _, _, _, _, q, _, hrecs⟩ := runRenew_ok h1
     rw [hrecs, alookup_mapSel, alookup_upsert] at hch
     by_cases hk : n = n'
     · subst hk; exact .ownRecord d hd hown
     · simp only [hk, if_false] at hch
-      by_cases hv : visSub s.tree n' n = true
+      by_cases hv : visSub n' n = true
       · exact .ownerAbove n' d (visSub_isSubOf hv) hd hown
       · cases hl : alookup n s.recs <;> simp [hl, hv] at hch
   | deleteSub o n' =>
-    obtain ⟨par, hpar, hown, _, _, _, hrecs⟩ := runDeleteSub_ok h1
+    obtain ⟨par, hpar, hown, _, _, hrecs⟩ := runDeleteSub_ok h1
     by_cases hsub : isSub n' = true
     · simp only [hsub, if_true] at hrecs hpar
       rw [hrecs.2, alookup_aerase] at hch
@@ -1052,7 +990,7 @@ theorem auth_of_change {env : Env} {s : St} {tx : Tx} {n : Name}
       · simp [hk] at hch
     · simp only [hsub] at hrecs hpar
       rw [hrecs, alookup_eraseSel] at hch
-      by_cases hv : visSub s.tree n' n = true
+      by_cases hv : visSub n' n = true
       · exact .ownerAbove n' par (visSub_isSubOf hv) hpar hown
       · simp [hv] at hch
 
@@ -1114,21 +1052,21 @@ theorem nodup_handler {env : Env} {s s' : St} {tx : Tx} (h : handler env s tx = 
     (hn : (akeys s.recs).Nodup) : (akeys s'.recs).Nodup := by
   cases tx with
   | create o b n u uo p c =>
-    obtain ⟨_, _, _, _, _, _, _, d, hrecs, _⟩ := runCreate_ok h
+    obtain ⟨_, _, _, _, _, _, d, hrecs, _⟩ := runCreate_ok h
     rw [hrecs]; exact nodup_akeys_upsert _ _ _ hn
   | update o b n a u uo =>
-    obtain ⟨d, _, _, _, _, _, _, hrecs⟩ := runUpdate_ok h
+    obtain ⟨d, _, _, _, _, _, hrecs⟩ := runUpdate_ok h
     rw [hrecs]
     apply nodup_akeys_upsert
     split
     · rw [akeys_mapSel]; exact hn
     · exact hn
   | sale o n p cu c =>
-    obtain ⟨d, _, _, _, _, _, _, _, _, d', hrecs, _⟩ := runSale_ok h
+    obtain ⟨d, _, _, _, _, _, _, _, d', hrecs, _⟩ := runSale_ok h
     rw [hrecs]; exact nodup_akeys_upsert _ _ _ hn
   | purchase b a n o c =>
-    obtain ⟨d, _, _, _, _, _, hbr⟩ := runPurchase_ok h
-    have hrecs : ∃ d', s'.recs = upsert (eraseSel (visSub s.tree n) s.recs) n d' := by
+    obtain ⟨d, _, _, _, _, hbr⟩ := runPurchase_ok h
+    have hrecs : ∃ d', s'.recs = upsert (eraseSel (visSub n) s.recs) n d' := by
       rcases hbr with ⟨_, _, _, _, _, _, _, _, _, _, _, hr⟩ | ⟨_, _, _, _, _, _, hr⟩
       · exact ⟨_, hr⟩
       · exact ⟨_, hr⟩
@@ -1141,10 +1079,10 @@ theorem nodup_handler {env : Env} {s s' : St} {tx : Tx} (h : handler env s tx = 
     obtain ⟨_, _, _, _, _, _, _, _, _, hrecs, _⟩ := runSend_ok h
     rw [hrecs]; exact hn
   | renew o n p c =>
-    obtain ⟨d, _, _, _, _, _, _, _, _, _, q, _, hrecs⟩ := runRenew_ok h
+    obtain ⟨d, _, _, _, _, _, _, _, _, q, _, hrecs⟩ := runRenew_ok h
     rw [hrecs, akeys_mapSel]; exact nodup_akeys_upsert _ _ _ hn
   | deleteSub o n =>
-    obtain ⟨par, _, _, _, _, _, hrecs⟩ := runDeleteSub_ok h
+    obtain ⟨par, _, _, _, _, hrecs⟩ := runDeleteSub_ok h
     split at hrecs
     · rw [hrecs.2, akeys_aerase]; exact hn.sublist List.filter_sublist
     · rw [hrecs, akeys_eraseSel]; exact hn.sublist List.filter_sublist
@@ -1153,7 +1091,7 @@ theorem nodup_step {env : Env} {s : St} {tx : Tx} (hn : (akeys s.recs).Nodup) :
     (akeys (step env s tx).2.recs).Nodup := by
   rcases step_cases env s tx with h | ⟨_, s1, h1, h2⟩
   · rw [h]; exact hn
-  · obtain ⟨_, _, _, _, hfr, _⟩ := feeStep_ok h2
+  · obtain ⟨_, _, _, _, hfr⟩ := feeStep_ok h2
     rw [hfr]; exact nodup_handler h1 hn
 
 theorem nodup_run {s : St} (evs : List Ev) (hn : (akeys s.recs).Nodup) : (akeys (run s evs).recs).Nodup := by
@@ -1175,18 +1113,18 @@ theorem sale_fields_of_change {env : Env} {s : St} {tx : Tx} {n : Name} {d d' : 
     (∃ b a o c, tx = .purchase b a n o c ∧ d'.owner = b ∧ d'.onSale = false ∧ d'.salePrice = none) := by
   rcases step_cases env s tx with h | ⟨_, s1, h1, h2⟩
   · rw [h, hd] at hd'; cases hd'; simp at hne
-  obtain ⟨_, _, _, _, hfr, _⟩ := feeStep_ok h2
+  obtain ⟨_, _, _, _, hfr⟩ := feeStep_ok h2
   rw [hfr] at hd'
   have same : d' = d → False := fun e => by subst e; simp at hne
   cases tx with
   | create o b n' u uo p c =>
-    obtain ⟨_, habs, _, _, _, _, _, x, hrecs, _⟩ := runCreate_ok h1
+    obtain ⟨_, habs, _, _, _, _, x, hrecs, _⟩ := runCreate_ok h1
     rw [hrecs, alookup_upsert] at hd'
     by_cases hk : n = n'
     · subst hk; rw [habs] at hd; cases hd
     · simp only [hk, if_false] at hd'; rw [hd] at hd'; cases hd'; exact (same rfl).elim
   | update o b n' a u uo =>
-    obtain ⟨x, hx, _, _, _, _, _, hrecs⟩ := runUpdate_ok h1
+    obtain ⟨x, hx, _, _, _, _, hrecs⟩ := runUpdate_ok h1
     rw [hrecs, alookup_upsert] at hd'
     by_cases hk : n = n'
     · subst hk; rw [hd] at hx; cases hx; simp only [if_true] at hd'; cases hd'; simp at hne
@@ -1198,15 +1136,15 @@ theorem sale_fields_of_change {env : Env} {s : St} {tx : Tx} {n : Name} {d d' : 
         split at hne <;> simp at hne
       · rw [hd] at hd'; cases hd'; exact (same rfl).elim
   | sale o n' p cu c =>
-    obtain ⟨x, hx, hown, _, _, _, _, _, _, x', hrecs, ho, _⟩ := runSale_ok h1
+    obtain ⟨x, hx, hown, _, _, _, _, _, x', hrecs, ho, _⟩ := runSale_ok h1
     rw [hrecs, alookup_upsert] at hd'
     by_cases hk : n = n'
     · subst hk; rw [hd] at hx; cases hx; simp only [if_true] at hd'; cases hd'
       left; exact ⟨p, cu, c, by rw [hown], ho⟩
     · simp only [hk, if_false] at hd'; rw [hd] at hd'; cases hd'; exact (same rfl).elim
   | purchase b a n' o c =>
-    obtain ⟨x, hx, _, _, _, _, hbr⟩ := runPurchase_ok h1
-    have hrecs : ∃ e, s1.recs = upsert (eraseSel (visSub s.tree n') s.recs) n' (resetAfterSale x b a e env.version) := by
+    obtain ⟨x, hx, _, _, _, hbr⟩ := runPurchase_ok h1
+    have hrecs : ∃ e, s1.recs = upsert (eraseSel (visSub n') s.recs) n' (resetAfterSale x b a e env.version) := by
       rcases hbr with ⟨_, _, _, _, _, _, _, _, _, _, _, hr⟩ | ⟨_, _, _, _, _, _, hr⟩
       · exact ⟨_, hr⟩
       · exact ⟨_, hr⟩
@@ -1224,7 +1162,7 @@ theorem sale_fields_of_change {env : Env} {s : St} {tx : Tx} {n : Name} {d d' : 
     obtain ⟨_, _, _, _, _, _, _, _, _, hrecs, _⟩ := runSend_ok h1
     rw [hrecs, hd] at hd'; cases hd'; exact (same rfl).elim
   | renew o n' p c =>
-    obtain ⟨x, hx, _, _, _, _, _, _, _, _, q, _, hrecs⟩ := runRenew_ok h1
+    obtain ⟨x, hx, _, _, _, _, _, _, _, q, _, hrecs⟩ := runRenew_ok h1
     rw [hrecs, alookup_mapSel, alookup_upsert] at hd'
     by_cases hk : n = n'
     · subst hk; rw [hd] at hx; cases hx
@@ -1235,7 +1173,7 @@ theorem sale_fields_of_change {env : Env} {s : St} {tx : Tx} {n : Name} {d d' : 
       subst hd'
       split at hne <;> simp at hne
   | deleteSub o n' =>
-    obtain ⟨par, _, _, _, _, _, hrecs⟩ := runDeleteSub_ok h1
+    obtain ⟨par, _, _, _, _, hrecs⟩ := runDeleteSub_ok h1
     split at hrecs
     · rw [hrecs.2, alookup_aerase] at hd'
       split at hd'
